@@ -407,7 +407,16 @@ def all_routes(Fxp, mk_src, fd, r, o, routes=None, dst_history=False, then_writt
             outs.append((how_, before, after))
         return outs
 
+    def r_ctor_nint():
+        # the destination given by its word and its integer length (the fraction length follows), with the signedness given or left to the default (signed)
+        ni_ = w - nf - (1 if s else 0)
+        read(_try(lambda: Fxp(mk_src(), s, n_word=w, n_int=ni_, rounding=r, overflow=o)))
+        if s:
+            read(_try(lambda: Fxp(mk_src(), n_word=w, n_int=ni_, rounding=r, overflow=o)))
+        return Fxp(mk_src(), s, n_frac=nf, n_int=ni_, rounding=r, overflow=o)
+
     table = {
+        'ctor_nint': r_ctor_nint,
         'ctor_like_override': r_ctor_like_override,
         'resize': r_resize, 'resize_dtype': r_resize_dtype, 'resize_nint': r_resize_nint,
         'ctor_like': lambda: Fxp(mk_src(), like=dst()),
